@@ -59,6 +59,9 @@ func registry() map[string]*propSpec {
 		"C06": {Scenario: "enc", Make: func() scen.Scenario { return &scen.Enc{Mode: "c06"} }, QuickRuns: 200000, ThorRuns: 20000000,
 			Rule: "each run = a sequence of WriteToken/WriteValue calls drawn legal with p=0.7 given the reference push-down model (all token kinds, ill-formed strings, NaN/Inf, zero token, raw values valid/truncated/duplicate-bearing/garbage, deep mode 9998..10001) x option set; every call's verdict vs the documented grammar, observers after every call vs the model, rejected calls must not move observers, twin run with the rejected calls removed must match, delivered bytes at depth 0 vs the reference serializer. distinct = hash of (call 2-grams, number of rejected calls, final depth, options); non-trivial = at least one rejected call.",
 			Real: realAll, Stub: stubIO},
+		"C17": {Scenario: "arshal-dispatch", Make: func() scen.Scenario { return &scen.Dispatch{} }, QuickRuns: 300000, ThorRuns: 20000000, ResetCache: true,
+			Rule: "each run = one of 81 generated marshal method-set types ({absent,value,pointer receiver} x {MarshalJSONTo,MarshalJSON,AppendText,MarshalText}) or 27 unmarshal method-set types x position kind (top, pointer, field, non-addressable field, slice/array element, map value, map key, inside interface, pointer field, nil pointer) x 0-3 option-supplied functions of interface type (MarshalToFunc/MarshalFunc, UnmarshalFromFunc/UnmarshalFunc, flat or nested Join) x a behaviour per candidate (ok, ErrUnsupported before/after use, error, zero/two values, open container, Reset) x a cache history of 0-4 earlier calls; the peers log which user code ran; a rule model of the documented order predicts the log, success/failure and the representation; inside the call the caller's options must be visible and Reset must panic. distinct = hash of (side, method set, position, functions, warm-up, behaviours); non-trivial = a misbehaving candidate or a warm cache.",
+			Real: realAll, Stub: []string{"user marshal/unmarshal methods and functions (generated peers interpreting a scripted behaviour)", "arshaler cache contents (reset per run, then warmed in a drawn order)"}},
 		"C18": {Scenario: "hist", Make: func() scen.Scenario { return &scen.Hist{} }, QuickRuns: 12000, ThorRuns: 1200000, Chunk: 400, ResetCache: true,
 			Rule: "each run = a pool of 6-18 (thorough: up to 43) heterogeneous calls (Marshal with adversarial values and panicking/erroring/re-entering peers, MarshalWrite with offset-keyed write faults, Unmarshal/UnmarshalRead of valid and invalid texts into 15 target types with offset-keyed read cuts and faults, Format/Compact/Indent/Canonicalize/IsValid/AppendFormat, v1 calls, user-owned Encoder programs incl. reuse after Reset, 1 MiB documents, >1000-deep values that switch cycle tracking on), executed in a drawn order as 1-16 cooperative tasks that switch at reader/writer/callback seams, with pool faults (explicit double GC, drain+permute, drop, arshaler-cache reset) at drawn steps; every outcome compared with the same call alone from pristine pools and caches; returned byte slices re-checked at the end; inputs overwritten after Unmarshal; pooled objects checked for duplicates and for being in use. distinct = hash of (context-switch sequence, task count, call kinds, pool faults); non-trivial = tasks really interleaved or a pool fault fired.",
 			Real: realAll, Stub: append([]string{"user marshal methods and functions (scripted peers)", "task scheduling (cooperative, one task at a time, switch points at seams)"}, stubIO...)},
